@@ -79,7 +79,11 @@ def next_serial():
     return next(_serial)
 
 
+OBJECTS = {}
+
+
 def reset_ids():
+    OBJECTS.clear()
     global _class_ids, _obj_ids, _serial
     _class_ids = itertools.count(1)
     _obj_ids = itertools.count(1)
@@ -92,6 +96,7 @@ class IObject:
         self.fields = {}
         self.oid = next(_obj_ids)
         self.serial = next(_serial)
+        OBJECTS[self.oid] = self
 
     def __repr__(self):
         return "<%s #%d>" % (self.cls.name, self.oid)
